@@ -9,6 +9,7 @@ for i in $(seq -w 1 20); do
 done
 wait
 git -C /repo checkout -- .
+git -C /repo clean -fdq wheatley
 for i in $(seq -w 1 20); do
   if ! grep -q "exit=0" /tmp/refcheck/C$i.log; then echo "--- C$i"; grep -E "VIOLATION|no longer|exit=|Error|error" /tmp/refcheck/C$i.log | head -6; fi
 done
